@@ -1347,6 +1347,13 @@ class _BoundRec:
                 return self.rec.f[fld] is not None
             if key in self.rec.defaults:
                 return self.rec.defaults[key]
+            # A ghost node must not be narrower than the real node: a field that the real IR class has but the contract
+            # did not mention may be set or not - its presence is an unconstrained symbolic boolean, so the postcondition
+            # has to hold either way (reading the field's VALUE stays unsupported).
+            if isinstance(fld, str) and _is_real_ir_field(self.rec.typename, fld):
+                b = SBool(interp.ctx.fresh_bool("has_field(%s.%s)" % (self.rec.typename, fld)))
+                self.rec.f[key] = b
+                return b
             raise Unsupported("has_field(%s) on %s undeclared" % (fld, self.rec.typename))
         if self.name == "CopyFrom":
             other = args[0]
@@ -1356,6 +1363,17 @@ class _BoundRec:
             self.rec.f.update(copy_rec(other).f)
             return None
         raise Unsupported("record method %s" % self.name)
+
+
+def _is_real_ir_field(typename, fld):
+    try:
+        import importlib
+        ir_data = importlib.import_module("compiler.util.ir_data")
+        ir_data_fields = importlib.import_module("compiler.util.ir_data_fields")
+        cls = getattr(ir_data, typename, None)
+        return cls is not None and fld in ir_data_fields.field_specs(cls)
+    except Exception:
+        return False
 
 
 def copy_rec(v):
